@@ -40,6 +40,11 @@ EXPECT_CANON = {"permute_pcsaft_alkanes_kij", "permute_pcsaft_acetone_co2", "pad
                 "gperm_epcsaft_water_nacl", "gpad2_epcsaft_water_nacl", "gpad0_epcsaft_water_nacl"}
 
 
+# index lists (number of components of the parent, list) for the correspondence of Components::subset with ParamLookup.subset_pure
+SUBSET_LISTS = [(1, [0]), (1, [0, 0]), (2, [0]), (2, [1]), (2, [1, 0]), (2, [0, 1]), (2, [1, 1, 0]), (3, [2]), (3, [2, 0]), (3, [0, 2]), (3, [1, 0]),
+                (3, [2, 1]), (3, [1, 2, 0]), (3, [2, 1, 0]), (3, [2, 0, 1]), (3, [0, 1, 2]), (3, [1, 1, 2]), (3, [2, 0, 2, 1])]
+
+
 def by_prog(tags, key):
     d = {}
     for item in tags.get(key, []):
@@ -70,7 +75,11 @@ def run(ctx):
                 "Definition plan (p : list nat) :=\n  let x := pat_x p in let idx := solvent_idx (Nat.eqb 0) x in\n"
                 "  (idx, scatter x idx (map (fun k => 100 + k) (seq 0 (List.length idx))), select_solutes (Nat.eqb 0) (seq 0 (List.length p)) x).\n"
                 "Eval vm_compute in (\"PLAN\"%%string, map (fun p => (p, plan p)) [%s]).\n"
-                % "; ".join("[" + "; ".join(str(b) for b in p) + "]" for p in pats))
+                "(* Components::subset of every model: position a of the sub-model is parent component idx_a (ParamLookup.subset_pure on tokens 1..n) *)\n"
+                "From FeosVerif Require Import ParamLookup.\n"
+                "Eval vm_compute in (\"SUBSETPLAN\"%%string, map (fun q => (q, @subset_pure nat 0 (seq 1 (fst q)) (snd q))) [%s]).\n"
+                % ("; ".join("[" + "; ".join(str(b) for b in p) + "]" for p in pats),
+                   "; ".join("(%d, [%s])" % (n, "; ".join(str(i) for i in l)) for (n, l) in SUBSET_LISTS)))
     gen_files = sorted(os.path.join(ctx.gen, f) for f in os.listdir(ctx.gen) if f.endswith(".v"))
     lib = V.check_props(ctx, PROP_FILES, gen_files)
     res = V.coqc_many(gen_files, ctx, timeout=2400)
@@ -211,6 +220,7 @@ def run(ctx):
                             "A_enclosures": [encl(ea0[0]), encl(eb0[0])] if ea0 and eb0 else None})
     # --- correspondence of HenryIdxC09.v with State::henrys_law_constant
     hm = {"comparisons": 0, "failures": [], "both_failed_to_converge": 0}
+    sm = {"comparisons": 0, "failures": []}
     rp = res.get(os.path.join(ctx.gen, "henry_plan.v"))
     plan_rows = V.tagged(rp["out"]).get("PLAN") if rp and rp["rc"] == 0 else None
     obligations += 1
@@ -221,6 +231,8 @@ def run(ctx):
         plan = {}
         for (pat, (idx, vap, sel)) in plan_rows[0]:
             plan["".join(str(b) for b in pat)] = {"idx": list(idx), "vapor": list(vap), "solutes": list(sel)}
+        plan["subset"] = [{"n": n, "idx": list(l), "parents": [t - 1 for t in toks]}
+                          for (n, l, toks) in (V.tagged(rp["out"]).get("SUBSETPLAN") or [[]])[0]]
         sub = os.path.join(ctx.gen, "henry")
         os.makedirs(sub, exist_ok=True)
         pj = os.path.join(sub, "plan.json")
@@ -240,6 +252,17 @@ def run(ctx):
                         found_input=True)
         elif hm["comparisons"] > 0:
             discharged += 1
+        sm = json.load(open(os.path.join(sub, "impl.json"))).get("subset_model", {"comparisons": 0, "failures": []})
+        obligations += 1
+        if sm["failures"]:
+            f0 = sm["failures"][0]
+            V.violation(ctx, "Components::subset of %s does not follow the index model (ParamLookup.subset_pure): subset(%s) has at position %s a "
+                             "component whose %s is %s, the parent's component %s has %s" % (f0["model"], f0["idx"], f0["position"], f0["observable"],
+                                                                                              f0["got"], f0["parent_component"], f0["expected"]),
+                        {"broken": "correspondence: ParamLookup.subset_pure (evaluated by coqc) vs Components::subset", "failing": sm["failures"][:8]},
+                        found_input=True)
+        elif sm["comparisons"] > 0:
+            discharged += 1
     # --- quantities the mixture algorithms derive for pure components / solvents (labelled tests on the public API)
     der = impl.get("derived", {"comparisons": 0, "failures": []})
     seen = set()
@@ -255,6 +278,12 @@ def run(ctx):
     cov = {
         "obligations": obligations, "discharged": discharged,
         "derived_quantity_comparisons": der["comparisons"],
+        "subset_index_model_correspondence": {"index_lists": len(SUBSET_LISTS), "comparisons": sm["comparisons"] if plan_rows else 0,
+                                              "models": sm.get("models") if plan_rows else None,
+                                              "rule": "for every model family of the shared configuration list and for EquationOfState<Joback, PengRobinson> / "
+                                                      "<Dippr, PengRobinson>: component a of model.subset(idx) must be parent component idx_a as computed by "
+                                                      "ParamLookup.subset_pure (coqc), observed through the per-component molar weight (residual models) and "
+                                                      "ln Lambda^3 (ideal-gas models); index lists in any order, with repetitions"},
         "henry_index_model_correspondence": {"zero_patterns": 22, "comparisons": hm["comparisons"],
                                              "both_sides_failed_to_converge": hm.get("both_failed_to_converge", 0),
                                              "rule": "plan (solvent_idx, scatter, select_solutes of HenryIdxC09.v) evaluated by coqc for all 22 zero patterns of 2-4 "
